@@ -247,6 +247,27 @@ pub fn run(ctx: &Ctx) -> Rep {
                 st.rep.add("class_target_hands", 1);
             }
         }
+        // one six- and one seven-card hand per class in every slot order (every 8th class in the quick tier)
+        if (all_orders5 || o % 8 == (seed % 8) as usize) && !ctx.smoke() {
+            let mut cards: Vec<u8> = base.to_vec();
+            while cards.len() < 7 {
+                let x = rng.below(52) as u8;
+                if !cards.contains(&x) {
+                    cards.push(x);
+                }
+            }
+            for k in 0..crate::drive::factorial(6) {
+                let p = crate::drive::nth_permutation(6, k);
+                let a = [cards[p[0] as usize], cards[p[1] as usize], cards[p[2] as usize], cards[p[3] as usize], cards[p[4] as usize], cards[p[5] as usize]];
+                check6(st, &m, &a);
+            }
+            for k in 0..crate::drive::factorial(7) {
+                let p = crate::drive::nth_permutation(7, k);
+                let a = [cards[p[0] as usize], cards[p[1] as usize], cards[p[2] as usize], cards[p[3] as usize], cards[p[4] as usize], cards[p[5] as usize], cards[p[6] as usize]];
+                check7(st, &m, &a);
+            }
+            st.rep.add("class_hands_checked_in_every_slot_order", 2);
+        }
     });
     let (rc, xc) = merge_states(sc);
     rep.merge(rc);
